@@ -1,6 +1,7 @@
 package vegeta_test
 
 import (
+	"bytes"
 	"errors"
 	"fmt"
 	"io"
@@ -47,7 +48,26 @@ type c05Case struct {
 	StallEvery int `json:",omitempty"`
 	StallUS    int `json:",omitempty"`
 	BadEvery   int `json:",omitempty"` // > 0: every BadEvery-th target is one no request can be built from
+	// TailFailEvery > 0: the attacker captures MaxBody(8) bytes; every n-th response has a 64-byte body whose second
+	// half fails to arrive (a read error after a short while, in the part that is only discarded)
+	TailFailEvery int `json:",omitempty"`
 }
+
+type c05FailingBody struct {
+	head  []byte
+	after time.Duration
+}
+
+func (b *c05FailingBody) Read(p []byte) (int, error) {
+	if len(b.head) > 0 {
+		n := copy(p, b.head)
+		b.head = b.head[n:]
+		return n, nil
+	}
+	time.Sleep(b.after)
+	return 0, io.ErrUnexpectedEOF
+}
+func (b *c05FailingBody) Close() error { return nil }
 
 const c05BadURL = "http://[::1/never-sent"
 
@@ -65,20 +85,21 @@ func (p c05CountedConst) Pace(el time.Duration, hits uint64) (time.Duration, boo
 }
 
 type c05Transport struct {
-	mode       string
-	hangEvery  int
-	stallEvery int
-	stallUS    int
-	errEvery   int
-	errKind    string
-	inflight   int64
-	overlaps   int64
-	n          int64
-	mu         sync.Mutex
-	entry      map[uint64]time.Time
-	exit       map[uint64]time.Time
-	took       map[uint64]time.Duration // total time the transport spent on the hit (all its round trips)
-	trips      map[uint64]int
+	mode          string
+	hangEvery     int
+	tailFailEvery int
+	stallEvery    int
+	stallUS       int
+	errEvery      int
+	errKind       string
+	inflight      int64
+	overlaps      int64
+	n             int64
+	mu            sync.Mutex
+	entry         map[uint64]time.Time
+	exit          map[uint64]time.Time
+	took          map[uint64]time.Duration // total time the transport spent on the hit (all its round trips)
+	trips         map[uint64]int
 }
 
 func c05Err(kind string) error {
@@ -135,6 +156,10 @@ func (t *c05Transport) RoundTrip(req *http.Request) (*http.Response, error) {
 	if rerr != nil {
 		return nil, rerr
 	}
+	if t.tailFailEvery > 0 && n%int64(t.tailFailEvery) == 0 {
+		return &http.Response{Status: "200 OK", StatusCode: 200, Proto: "HTTP/1.1", ProtoMajor: 1, ProtoMinor: 1, ContentLength: 64,
+			Header: http.Header{}, Body: &c05FailingBody{head: bytes.Repeat([]byte("h"), 32), after: 200 * time.Microsecond}, Request: req}, nil
+	}
 	return &http.Response{Status: "200 OK", StatusCode: 200, Proto: "HTTP/1.1", ProtoMajor: 1, ProtoMinor: 1,
 		Header: http.Header{}, Body: io.NopCloser(strings.NewReader("")), Request: req}, nil
 }
@@ -149,7 +174,7 @@ func evalC05(c c05Case) (overlaps int64, err error) {
 		defer runtime.GOMAXPROCS(runtime.GOMAXPROCS(c.Procs))
 	}
 	tr := &c05Transport{mode: c.Transport, hangEvery: c.HangEvery, entry: map[uint64]time.Time{}, exit: map[uint64]time.Time{},
-		stallEvery: c.StallEvery, stallUS: c.StallUS, errEvery: c.ErrEvery, errKind: c.ErrKind, took: map[uint64]time.Duration{}, trips: map[uint64]int{}}
+		tailFailEvery: c.TailFailEvery, stallEvery: c.StallEvery, stallUS: c.StallUS, errEvery: c.ErrEvery, errKind: c.ErrKind, took: map[uint64]time.Duration{}, trips: map[uint64]int{}}
 	client := &http.Client{Transport: tr}
 	if c.TimeoutMS > 0 {
 		client.Timeout = time.Duration(c.TimeoutMS) * time.Millisecond
@@ -190,7 +215,11 @@ func evalC05(c c05Case) (overlaps int64, err error) {
 	if c.RateFreq > 0 {
 		pacer = c05CountedConst{vegeta.ConstantPacer{Freq: c.RateFreq, Per: time.Duration(c.RatePerUS) * time.Microsecond}, uint64(c.Hits)}
 	}
-	atk := vegeta.NewAttacker(vegeta.Client(client), vegeta.Workers(uint64(c.MaxWorkers)), vegeta.MaxWorkers(uint64(c.MaxWorkers)))
+	opts := []func(*vegeta.Attacker){vegeta.Client(client), vegeta.Workers(uint64(c.MaxWorkers)), vegeta.MaxWorkers(uint64(c.MaxWorkers))}
+	if c.TailFailEvery > 0 {
+		opts = append(opts, vegeta.MaxBody(8))
+	}
+	atk := vegeta.NewAttacker(opts...)
 	before := time.Now()
 	var results []*vegeta.Result
 	p := plot.New()
@@ -214,6 +243,9 @@ func evalC05(c c05Case) (overlaps int64, err error) {
 	}
 	if c.BadEvery > 0 {
 		what += fmt.Sprintf(", every %d-th target malformed", c.BadEvery)
+	}
+	if c.TailFailEvery > 0 {
+		what += fmt.Sprintf(", MaxBody(8) with every %d-th response body failing in the part that is discarded", c.TailFailEvery)
 	}
 	if len(results) != c.Hits {
 		return overlaps, fmt.Errorf("%s: %d results", what, len(results))
@@ -299,6 +331,9 @@ func TestC05Order(t *testing.T) {
 			}
 		}
 		c.OwnSeqHdr = rapid.IntRange(0, 2).Draw(t, "ownhdr") == 0
+		if rapid.IntRange(0, 3).Draw(t, "tailfail") == 0 {
+			c.TailFailEvery = rapid.SampledFrom([]int{2, 7, 100}).Draw(t, "tailfailevery")
+		}
 		if rapid.IntRange(0, 3).Draw(t, "bad") == 0 {
 			c.BadEvery = rapid.SampledFrom([]int{2, 5, 100}).Draw(t, "badevery")
 		}
